@@ -17,6 +17,10 @@ CONSTANTS
  DevFetchAclOnRequestName = FALSE
  DevStaleOwnedOnSessionReplace = FALSE
  DevLeaseErrMisindexed = FALSE
+ MidOn = TRUE
+ DevAclCacheNoAction = FALSE
+ DevLateAcquireAfterRelease = FALSE
+ DevReacquireUnconditional = FALSE
 INIT Init
 NEXT Next
 INVARIANTS EmitSched C19_AckOnlyIfHeld C19_NoWriteUnlessHeld C19_RefusalCode C19_NotLeaderForOtherOwner C24_NoEffect C24_AuthError C24_NoLeak
